@@ -13,7 +13,7 @@ theorem facts02_body : facts02.missingBodyFault = true := by decide
 
 theorem facts02_good : facts02.Good :=
   ⟨by decide, by decide, by decide, by decide, by decide, by decide, by decide, by decide, by decide, by decide,
-   by decide, by decide, by decide⟩
+   by decide, by decide, by decide, by decide, by decide⟩
 
 /-- D17 and friends: bytes the parser cannot decode and MessagePack-RPC envelopes the server cannot serve are client faults -/
 theorem facts02_parse : facts02.parseErrorsFault = true := by decide
@@ -68,7 +68,7 @@ theorem hier_server_no_crash (cfg : Cfg) (R : Registry) (hR : regWf R)
 
 def exTy : Ty := .obj "f".toList "tns".toList none
   [("d".toList, .prim .date {}), ("m".toList, .prim (.integer .i8 {}) { maxOccurs := some 3 })] {}
-def exCfg : Cfg := ⟨.yaml, .none, true, .dict, false⟩
+def exCfg : Cfg := ⟨.yaml, .none, true, .dict, false, false, true⟩
 
 example : (decode facts08 facts02 exCfg [] exTy (.map [(.str "d".toList, .int 5)])).isFault = true := by decide +kernel
 example : (decode facts08 facts02 exCfg [] exTy (.map [(.str "m".toList, .int 5)])).isFault = true := by decide +kernel
